@@ -6,12 +6,11 @@ CONSTANTS
   Ids = {0, 1, 2}
   CancelIds = {0, 1, 2}
   MaxSleeps = 3
+  MaxHeap = 3
   MaxOps = 0
-  MaxCancels = 0
-  TrackAt = FALSE
   AllowRemove = TRUE
   Interval = 0
   NC = 1
-INVARIANTS TypeOK HeapWellFormed LiveMatchesPending NeverEarly DestroyCancelsPending IntervalStopEnds
-PROPERTIES ExactlyOncePerSleep OnePerCall DeadlineOrder NeverEarlyStep PromptManual CancelHitsOne CancelFalseNoEffect RemoveHitsOne NotifyWhenEarliest
+INVARIANTS TypeOK HeapWellFormed LiveMatchesPending NothingAfterDestroy IntervalConsistent
+PROPERTIES ExactlyOncePerSleep OnePerCall NeverEarly DeadlineOrder PromptManual CancelHitsOne CancelFalseNoEffect RemoveHitsOne NotifyWhenEarliest DestroyCancelsPending
 CHECK_DEADLOCK FALSE
